@@ -153,11 +153,18 @@ def check_seq(prop, tier, seed):
         engines = "memkv,badger,tikv,metrics"
         flags = ["-seed", str(seed), "-frac", "0.02" if quick else "0.1", "-finalfrac", "0.25" if quick else "1.0"]
         alltraces, allagree = [], []
-        for title, behs in (("2 keys", plain), ("3 keys", three), ("values equal to the deletion marker", star)):
+        # C12: long histories of one key (create, delete, re-create, update ...) with a compaction in the middle and
+        # every read of the final sweep: engines must also agree on what a compaction leaves behind
+        deep = seq_gen(work, dict(SEQ_CONSTS, Keys={1}, MaxOps=7, ExpKinds={"cur"}, CompactKinds={"cur", "cur-1", "cur-2"}, CompactAfter=4),
+                       seed + 3, n // 2, name="gendeep") if prop == "C12" else []
+        for title, behs in (("2 keys", plain), ("3 keys", three), ("values equal to the deletion marker", star), ("1 key, deep history, compaction", deep)):
             if not behs:
                 continue
-            rep, traces, agrees = seqrun(work, binp, behs, engines, 16, flags if prop != "C13" else ["-seed", str(seed), "-sets", "30" if quick else "120"],
-                                         agree=(prop == "C12"), cmd=PROP_CMD.get(prop, "seqrun"))
+            fl = flags if prop != "C13" else ["-seed", str(seed), "-sets", "30" if quick else "120"]
+            if title.startswith("1 key"):
+                fl = ["-seed", str(seed), "-frac", "0.05", "-finalfrac", "1.0"]
+            rep, traces, agrees = seqrun(work, binp, behs, engines, 16, fl,
+                                         agree=(prop == "C12"), cmd=PROP_CMD.get(prop, "seqrun"), name="seqrun_" + title.split(",")[0].replace(" ", "_"))
             cov["evaluations"] += rep.get("behaviours", 0)
             cov["distinct_nontrivial"] += rep.get("nontrivial", 0)
             cov["replay"].append(dict(histories=title, engines=engines, behaviours=rep.get("behaviours", 0), agreed_with_spec=rep.get("agreed", 0),
